@@ -2,10 +2,10 @@ import BSModel.Base.PStr
 import BSModel.Gen.Pretty
 /-! # Pretty-printing: `Tag.decode(indent_level=…)` / `prettify()`   (property C14)
 
-Code-mirror (line numbers as of /repo commit 30770a7) of `bs4/element.py` `Tag.decode` (:2350-2457), `Tag._event_stream` (:2472-2514, as the balanced event list of
+Code-mirror (line numbers as of /repo commit 3196e3e) of `bs4/element.py` `Tag.decode` (:2374-2482), `Tag._event_stream` (:2496-2539, as the balanced event list of
 the tree — the tag-stack walk over the pre-order is tied to this list by the harness, op `ev`), `Tag._indent_string`
-(:2516-2542), `Tag._should_pretty_print` (:2606-2615), `Tag.is_empty_element` (:1825-1841), `Tag.prettify` (:2617-2633),
-`Tag.decode_contents` (:2635-2661), `PageElement._self_and` (hidden receiver skipped), and of `bs4/formatter.py`
+(:2540-2567), `Tag._should_pretty_print` (:2630-2640), `Tag.is_empty_element` (:1839-1855), `Tag.prettify` (:2641-2658),
+`Tag.decode_contents` (:2659-2686), `PageElement._self_and` (hidden receiver skipped), and of `bs4/formatter.py`
 `Formatter.__init__` (:125-136, normalisation of `indent`).
 
 Opaque pieces.  What `_format_tag(opening=True/False)` returns for a tag and what `output_ready(formatter)` returns for a
@@ -53,13 +53,17 @@ def rep (s : PStr) (n : Int) : PStr := (List.replicate n.toNat s).flatten
 
 /-! ### trees and their event stream -/
 
-/-- `Tag._should_pretty_print()` as `decode` calls it (no argument, so `indent_level = 1 is not None`), element.py:2606-2615:
+/-- `Tag._should_pretty_print()` as `decode` calls it (no argument, so `indent_level = 1 is not None`), element.py:2630-2640:
     `not self.preserve_whitespace_tags or self.name not in self.preserve_whitespace_tags`
     (`None` and the empty set are both falsy). -/
 def shouldPrettyPrint (pwt : Option (List PStr)) (name : PStr) : Bool :=
   match pwt with
   | none => true
   | some l => l.isEmpty || !l.contains name
+
+/-- `_should_pretty_print(indent_level)` with the argument given explicitly: `indent_level is not None and (…)` -/
+def shouldPrettyPrintAt (indentLevel : Option Int) (pwt : Option (List PStr)) (name : PStr) : Bool :=
+  indentLevel.isSome && shouldPrettyPrint pwt name
 
 /-- A rendered tree. `str ready`: a `NavigableString` (any subclass) with `ready = output_ready(formatter)`.
     `void tag`: a tag with `is_empty_element`, `tag = _format_tag(opening=True)`.
@@ -71,7 +75,7 @@ inductive Node where
   | elem (id : Nat) (opn cls : PStr) (pre : Bool) (kids : List Node)
 deriving Repr
 
-/-- `is_empty_element` (element.py:1825-1841): `len(self.contents) == 0 and self.can_be_empty_element is True` decides
+/-- `is_empty_element` (element.py:1839-1855): `len(self.contents) == 0 and self.can_be_empty_element is True` decides
     between the two tag constructors. -/
 def mkTag (id : Nat) (opn cls : PStr) (pwt : Option (List PStr)) (name : PStr) (canBeEmpty : Bool) (kids : List Node) : Node :=
   if kids.isEmpty && canBeEmpty then .void opn else .elem id opn cls (!shouldPrettyPrint pwt name) kids
@@ -82,7 +86,7 @@ inductive Ev where
   | stop (id : Nat) (piece : PStr)                 -- END_ELEMENT_EVENT
   | empty (piece : PStr)                           -- EMPTY_ELEMENT_EVENT
   | text (piece : PStr)                            -- STRING_ELEMENT_EVENT
-deriving Repr
+deriving Repr, DecidableEq
 
 def Ev.piece : Ev → PStr
   | .start _ p _ => p
@@ -91,7 +95,7 @@ def Ev.piece : Ev → PStr
   | .text p => p
 
 mutual
-/-- `_event_stream` over `self_and_descendants` of a visible element (element.py:2472-2514): start, the children's
+/-- `_event_stream` over `self_and_descendants` of a visible element (element.py:2496-2539): start, the children's
     events, end; one event for an empty-element tag or a string. -/
 def events : Node → List Ev
   | .str s => [.text s]
@@ -102,6 +106,49 @@ def events : Node → List Ev
 def eventsL : List Node → List Ev
   | [] => []
   | k :: ks => events k ++ eventsL ks
+end
+
+/-! ### `_event_stream` itself: the tag stack over the pre-order with parent pointers -/
+
+/-- one element yielded by the iterator `_event_stream` walks (`self_and_descendants` / `descendants`): its `.parent` (by
+    identity) and what `decode` needs from it -/
+inductive FItem where
+  | tag (parent id : Nat) (isEmpty : Bool) (opn cls : PStr) (pre : Bool)   -- a Tag; `isEmpty` = `is_empty_element`
+  | str (parent : Nat) (ready : PStr)                                       -- a NavigableString
+deriving Repr
+
+def FItem.parent : FItem → Nat
+  | .tag p _ _ _ _ _ => p
+  | .str p _ => p
+
+/-- `while tag_stack and c.parent is not tag_stack[-1]: yield END, tag_stack.pop()` (element.py:2522-2524); the stack is
+    kept top-first, a frame is the tag's identity and its closing piece -/
+def popTo (par : Nat) : List (Nat × PStr) → List Ev × List (Nat × PStr)
+  | [] => ([], [])
+  | (i, c) :: st =>
+    if i = par then ([], (i, c) :: st)
+    else ((Ev.stop i c) :: (popTo par st).1, (popTo par st).2)
+
+/-- `Tag._event_stream(iterator)` (element.py:2496-2539) -/
+def streamImpl : List (Nat × PStr) → List FItem → List Ev
+  | st, [] => st.map fun f => Ev.stop f.1 f.2                    -- `while tag_stack: yield END, tag_stack.pop()`
+  | st, it :: rest =>
+    (popTo it.parent st).1 ++
+      (match it with
+       | .tag _ i isEmpty o c pre =>
+         if isEmpty then Ev.empty o :: streamImpl (popTo it.parent st).2 rest
+         else Ev.start i o pre :: streamImpl ((i, c) :: (popTo it.parent st).2) rest
+       | .str _ s => Ev.text s :: streamImpl (popTo it.parent st).2 rest)
+
+mutual
+/-- the pre-order of a tree with parent pointers, as the `next_element` walk delivers it (C01/C02's invariant) -/
+def flat (p : Nat) : Node → List FItem
+  | .str s => [.str p s]
+  | .void t => [.tag p 0 true t [] false]
+  | .elem i o c pre ks => .tag p i false o c pre :: flatL i ks
+def flatL (p : Nat) : List Node → List FItem
+  | [] => []
+  | k :: ks => flat p k ++ flatL p ks
 end
 
 def Node.kids : Node → List Node
@@ -115,7 +162,7 @@ def receiverStream (hidden contentsOnly : Bool) (t : Node) : List Ev :=
 
 /-! ### `decode` -/
 
-/-- `_indent_string` (element.py:2516-2542) -/
+/-- `_indent_string` (element.py:2540-2567) -/
 def indentString (unit s : PStr) (indentLevel : Int) (indentBefore indentAfter : Bool) : PStr :=
   let spaceBefore := if indentBefore && indentLevel != 0 then rep unit indentLevel else []
   let spaceAfter := if indentAfter then [10] else []
@@ -127,21 +174,21 @@ structure St where
   lit : Option Nat
 deriving Repr
 
-/-- one iteration of the loop in `decode` (element.py:2394-2456): the piece appended and the next state -/
+/-- one iteration of the loop in `decode` (element.py:2418-2480): the piece appended and the next state -/
 def step (unit : PStr) (st : St) (ev : Ev) : PStr × St :=
-  -- :2395-2405  the piece; an end event decrements the level first
+  -- :2419-2429  the piece; an end event decrements the level first
   let piece := ev.piece
   let lvl : Option Int := match ev with
     | .stop _ _ => st.lvl.map (· - 1)
     | _ => st.lvl
-  -- :2416-2419  `if string_literal_tag:` (a Tag is always truthy)
+  -- :2440-2443  `if string_literal_tag:` (a Tag is always truthy)
   let dflt : Bool := st.lit.isNone
-  -- :2424-2442  entering / leaving string literal mode
+  -- :2448-2466  entering / leaving string literal mode
   let (before, after, lit) : Bool × Bool × Option Nat := match ev with
     | .start i _ pre => if st.lit.isNone && pre then (true, false, some i) else (dflt, dflt, st.lit)
     | .stop i _ => if st.lit == some i then (false, true, none) else (dflt, dflt, st.lit)
     | _ => (dflt, dflt, st.lit)
-  -- :2446-2456
+  -- :2470-2480
   match lvl with
   | none => (piece, ⟨none, lit⟩)
   | some l =>
@@ -161,13 +208,15 @@ def step (unit : PStr) (st : St) (ev : Ev) : PStr × St :=
 inductive LevelArg where
   | none
   | true
+  | false
   | int (n : Int)
 deriving Repr, DecidableEq
 
-/-- element.py:2383-2384 `if indent_level is True: indent_level = 0` (`False` is the int 0 already) -/
+/-- element.py:2407-2408 `if indent_level is True: indent_level = 0` (`False` is the int 0 already) -/
 def levelOf : LevelArg → Option Int
   | .none => Option.none
   | .true => some 0
+  | .false => some 0
   | .int n => some n
 
 /-- the list `pieces` built by the loop -/
@@ -180,7 +229,7 @@ def pieces (unit : PStr) : St → List Ev → List PStr
 def decodeImpl (unit : PStr) (indentLevel : Option Int) (evs : List Ev) : PStr :=
   (pieces unit ⟨indentLevel, none⟩ evs).flatten
 
-/-- `Tag.prettify(formatter=…)` with `encoding=None` (element.py:2630-2631) -/
+/-- `Tag.prettify(formatter=…)` with `encoding=None` (element.py:2654-2655) -/
 def prettifyImpl (unit : PStr) (hidden : Bool) (t : Node) : PStr :=
   decodeImpl unit (some 0) (receiverStream hidden false t)
 
@@ -254,5 +303,271 @@ end
 
 /-- all whitespace code points removed -/
 def dropWs (s : PStr) : PStr := s.filter (fun c => !isSpace c)
+
+/-! ## The layer above the pieces: receivers, encodings, the bytes flavour, the XML declaration
+
+Here the pieces are no longer inputs but computed as the code computes them, from what the tag / string objects carry:
+`Tag._format_tag` (element.py:2568-2629; the attribute string — `formatter.attributes`, `attribute_value`,
+`quoted_attribute_value`, charset substitution — stays opaque, given per `eventual_encoding`), `NavigableString.output_ready` /
+`PreformattedString.output_ready` (:1347-1355, :1450-1466; `PREFIX + body + SUFFIX`, the substituted body opaque), and the
+entry points `Tag.decode`/`decode_contents`/`encode`/`encode_contents`/`prettify` (element.py) and `BeautifulSoup.decode`
+(bs4/__init__.py:1080-1150: XML declaration, deprecated bool `indent_level`). The codec step `str.encode(encoding,
+"xmlcharrefreplace")` is not modelled: a bytes result is represented by the encoding and the text handed to the codec. -/
+
+/-- what a tag object carries as far as rendering its own two pieces is concerned -/
+structure TagInfo where
+  id : Nat
+  /-- `none`: a `Tag`; `some x`: a `BeautifulSoup` object with `is_xml = x` (its `decode` is overridden) -/
+  soupXml : Option Bool
+  hidden : Bool
+  /-- `self.prefix` ("" for `None`: both falsy) -/
+  nsPrefix : PStr
+  name : PStr
+  /-- `attribute_string` of `_format_tag(opening=True)` for every `eventual_encoding` not listed in `attrBy` -/
+  attrDefault : PStr
+  /-- … and for the listed ones (`none` = `eventual_encoding=None`): differs only through `AttributeValueWithCharsetSubstitution` -/
+  attrBy : List (Option PStr × PStr)
+  preserveWs : Option (List PStr)
+  canBeEmpty : Bool
+deriving Repr
+
+/-- a tree as the objects are: strings with their class' PREFIX/SUFFIX and the body `output_ready` puts between them -/
+inductive RNode where
+  | str (pre suf body : PStr)
+  | tag (info : TagInfo) (kids : List RNode)
+deriving Repr
+
+/-- what reaches `_format_tag` from the call: `eventual_encoding` and `formatter.void_element_close_prefix or ""` -/
+structure RCfg where
+  enc : Option PStr
+  vcp : PStr
+deriving Repr
+
+def attrString (i : TagInfo) (enc : Option PStr) : PStr :=
+  match i.attrBy.lookup enc with
+  | some s => s
+  | none => i.attrDefault
+
+/-- `Tag._format_tag(eventual_encoding, formatter, opening)` (element.py:2568-2629) -/
+def formatTag (c : RCfg) (i : TagInfo) (isEmptyElement opening : Bool) : PStr :=
+  if i.hidden then []
+  else
+    let closingSlash : PStr := if !opening then [47] else []
+    let pfx : PStr := if i.nsPrefix ≠ [] then i.nsPrefix ++ [58] else []
+    let attributeString : PStr := if opening then attrString i c.enc else []
+    let voidElementClosingSlash : PStr := if isEmptyElement then c.vcp else []
+    [60] ++ closingSlash ++ pfx ++ i.name ++ attributeString ++ voidElementClosingSlash ++ [62]
+
+/-- `output_ready`: `self.PREFIX + output + self.SUFFIX` (both implementations) -/
+def outputReady (pre suf body : PStr) : PStr := pre ++ body ++ suf
+
+mutual
+/-- the pieces of every node under one call configuration -/
+def resolve (c : RCfg) : RNode → Node
+  | .str p s b => .str (outputReady p s b)
+  | .tag i ks =>
+    let isEmpty := ks.isEmpty && i.canBeEmpty
+    mkTag i.id (formatTag c i isEmpty true) (formatTag c i isEmpty false) i.preserveWs i.name i.canBeEmpty (resolveL c ks)
+def resolveL (c : RCfg) : List RNode → List Node
+  | [] => []
+  | k :: ks => resolve c k :: resolveL c ks
+end
+
+def RNode.hidden : RNode → Bool
+  | .tag i _ => i.hidden
+  | .str _ _ _ => false
+
+def RNode.soupXml : RNode → Option Bool
+  | .tag i _ => i.soupXml
+  | .str _ _ _ => none
+
+/-- `Tag.decode(indent_level, eventual_encoding, formatter)` (`contentsOnly = false`) and
+    `Tag.decode_contents(indent_level, eventual_encoding, formatter)` (`contentsOnly = true`, element.py:2659-2686);
+    `unit` = `formatter.indent`, `vcp` = `formatter.void_element_close_prefix or ""` -/
+def tagDecode (unit vcp : PStr) (lvl : LevelArg) (enc : Option PStr) (contentsOnly : Bool) (r : RNode) : PStr :=
+  decodeImpl unit (levelOf lvl) (receiverStream r.hidden contentsOnly (resolve ⟨enc, vcp⟩ r))
+
+/-- the first lines of `BeautifulSoup.decode` (bs4/__init__.py:1104-1117): the XML declaration of an `is_xml` soup -/
+def xmlDecl (isXml : Bool) (enc : Option PStr) : PStr :=
+  if isXml then
+    let declared : Option PStr := match enc with
+      | some e => if BS.Gen.Pretty.pythonSpecificEncodings.contains e then none else some e
+      | none => none
+    let encodingPart : PStr := match declared with
+      | some e => ofS " encoding=\"" ++ e ++ ofS "\""
+      | none => []
+    ofS "<?xml version=\"1.0\"" ++ encodingPart ++ ofS "?>\n"
+  else []
+
+/-- bs4/__init__.py:1128-1133: a bool first argument keeps its pre-4.13 meaning (`True` → 0, `False` → None, with a
+    DeprecationWarning) -/
+def soupLevel : LevelArg → LevelArg
+  | .true => .int 0
+  | .false => .none
+  | l => l
+
+/-- `BeautifulSoup.decode(indent_level, eventual_encoding, formatter, iterator)`; `decode_contents` on a soup reaches it
+    with `iterator=self.descendants` (`contentsOnly`) -/
+def soupDecode (unit vcp : PStr) (isXml : Bool) (lvl : LevelArg) (enc : Option PStr) (contentsOnly : Bool) (r : RNode) : PStr :=
+  xmlDecl isXml enc ++ tagDecode unit vcp (soupLevel lvl) enc contentsOnly r
+
+/-- `self.decode(...)` by method resolution: the override for a `BeautifulSoup` receiver -/
+def recvDecode (unit vcp : PStr) (lvl : LevelArg) (enc : Option PStr) (contentsOnly : Bool) (r : RNode) : PStr :=
+  match r.soupXml with
+  | some x => soupDecode unit vcp x lvl enc contentsOnly r
+  | none => tagDecode unit vcp lvl enc contentsOnly r
+
+/-- a result: text, or the bytes `text.encode(enc, "xmlcharrefreplace")` (codec not modelled) -/
+inductive Out where
+  | str (s : PStr)
+  | bytes (enc : PStr) (text : PStr)
+deriving Repr, DecidableEq
+
+/-- `Tag.encode(encoding, indent_level, formatter)` (element.py:2344-2373): `self.decode(indent_level, encoding, formatter)`,
+    then the codec -/
+def encodeImpl (unit vcp : PStr) (encoding : PStr) (lvl : LevelArg) (r : RNode) : Out :=
+  .bytes encoding (recvDecode unit vcp lvl (some encoding) false r)
+
+/-- `Tag.encode_contents(indent_level, encoding, formatter)` (element.py:2687-2706) -/
+def encodeContentsImpl (unit vcp : PStr) (lvl : LevelArg) (encoding : PStr) (r : RNode) : Out :=
+  .bytes encoding (recvDecode unit vcp lvl (some encoding) true r)
+
+/-- deprecated `Tag.renderContents(encoding, prettyPrint, indentLevel)`: `if not prettyPrint: indentLevel = None`, then
+    `encode_contents(indent_level=indentLevel, encoding=encoding)` (always the default formatter) -/
+def renderContentsImpl (unit vcp : PStr) (encoding : PStr) (prettyPrint : Bool) (indentLevel : LevelArg) (r : RNode) : Out :=
+  encodeContentsImpl unit vcp (if prettyPrint then indentLevel else .none) encoding r
+
+/-- `Tag.prettify(encoding, formatter)` (element.py:2641-2658): without an encoding `self.decode(indent_level=0,
+    formatter=formatter)` — `eventual_encoding` at the default of the `decode` that is reached — else `self.encode(encoding=
+    encoding, indent_level=0, formatter=formatter)` -/
+def prettifyRaw (unit vcp : PStr) (encoding : Option PStr) (r : RNode) : Out :=
+  match encoding with
+  | none =>
+    let dflt := match r.soupXml with
+      | some _ => BS.Gen.Pretty.soupDecodeDefaultEnc
+      | none => BS.Gen.Pretty.tagDecodeDefaultEnc
+    .str (recvDecode unit vcp (.int 0) dflt false r)
+  | some e => encodeImpl unit vcp e (.int 0) r
+
+/-- the recursive specification of `recvDecode`: the declaration line (XML-flavoured soup only), then `decodeSpec` on the
+    resolved pieces -/
+def recvSpec (unit vcp : PStr) (lvl : LevelArg) (enc : Option PStr) (contentsOnly : Bool) (r : RNode) : PStr :=
+  match r.soupXml with
+  | some x => xmlDecl x enc ++ decodeSpec unit (levelOf (soupLevel lvl)) r.hidden contentsOnly (resolve ⟨enc, vcp⟩ r)
+  | none => decodeSpec unit (levelOf lvl) r.hidden contentsOnly (resolve ⟨enc, vcp⟩ r)
+
+mutual
+/-- identities of the tags of a raw tree -/
+def rids : RNode → List Nat
+  | .tag i ks => i.id :: ridsL ks
+  | .str _ _ _ => []
+def ridsL : List RNode → List Nat
+  | [] => []
+  | k :: ks => rids k ++ ridsL ks
+end
+
+mutual
+/-- no tag shares its identity with one of its descendants -/
+def rdistinct : RNode → Bool
+  | .tag i ks => !(ridsL ks).contains i.id && rdistinctL ks
+  | .str _ _ _ => true
+def rdistinctL : List RNode → Bool
+  | [] => true
+  | k :: ks => rdistinct k && rdistinctL ks
+end
+
+mutual
+/-- no whitespace-preserving element met outside literal mode is `hidden` -/
+def rPreVisible : RNode → Bool
+  | .tag i ks =>
+    if ks.isEmpty && i.canBeEmpty then true
+    else if !shouldPrettyPrint i.preserveWs i.name then !i.hidden
+    else rPreVisibleL ks
+  | .str _ _ _ => true
+def rPreVisibleL : List RNode → Bool
+  | [] => true
+  | k :: ks => rPreVisible k && rPreVisibleL ks
+end
+
+def RNode.kids : RNode → List RNode
+  | .tag _ ks => ks
+  | .str _ _ _ => []
+
+/-! ## The two outputs as token sequences
+
+The tokenizer (`html.parser`) is not modelled. `plainToks`/`prettyToks` cut the plain / pretty output where a tokenizer cuts
+well-formed output: every tag piece and every string piece with a PREFIX (comment, CDATA, processing instruction, declaration,
+doctype — minus the whitespace after its closing delimiter) is one markup token, everything else is character data. The
+harness compares the cuts with the real tokenizer's on the real outputs (op `tp`/`tq`). -/
+
+/-- the whitespace `rstrip` removes -/
+def rtail (s : PStr) : PStr := (s.reverse.takeWhile isSpace).reverse
+
+inductive Tok where
+  | markup (p : PStr)
+  | data (s : PStr)
+deriving Repr, DecidableEq
+
+def Tok.text : Tok → PStr
+  | .markup p => p
+  | .data s => s
+
+def textOf (ts : List Tok) : PStr := (ts.map Tok.text).flatten
+
+/-- pending character data, if any -/
+def flushD (acc : PStr) : List Tok := if acc = [] then [] else [.data acc]
+
+/-- adjacent character data merged (as `handle_data` calls accumulate until the next tag), whitespace in it disregarded,
+    empty runs dropped -/
+def canonAux : PStr → List Tok → List Tok
+  | acc, [] => flushD acc
+  | acc, .data s :: r => canonAux (acc ++ dropWs s) r
+  | acc, .markup p :: r => flushD acc ++ .markup p :: canonAux [] r
+
+def canon (ts : List Tok) : List Tok := canonAux [] ts
+
+/-- a tag piece as tokens (a hidden tag has none) -/
+def tagTok (p : PStr) : List Tok := if p = [] then [] else [.markup p]
+
+def lineToks (u : PStr) (l : Int) (p : PStr) : List Tok := if p = [] then [] else [.data (rep u l), .markup p, .data [10]]
+def openToks (u : PStr) (l : Int) (p : PStr) : List Tok := if p = [] then [] else [.data (rep u l), .markup p]
+def closeToks (p : PStr) : List Tok := if p = [] then [] else [.markup p, .data [10]]
+
+/-- a string piece in the plain output: character data, or (class with a PREFIX) one markup token followed by the whitespace
+    after its closing delimiter -/
+def strToks (pre suf body : PStr) : List Tok :=
+  if pre = [] then [.data (outputReady pre suf body)]
+  else [.markup (rstrip (outputReady pre suf body)), .data (rtail (outputReady pre suf body))]
+
+mutual
+def plainToks (c : RCfg) : RNode → List Tok
+  | .str p s b => strToks p s b
+  | .tag i ks =>
+    let e := ks.isEmpty && i.canBeEmpty
+    if e then tagTok (formatTag c i e true)
+    else tagTok (formatTag c i e true) ++ plainToksL c ks ++ tagTok (formatTag c i e false)
+def plainToksL (c : RCfg) : List RNode → List Tok
+  | [] => []
+  | k :: ks => plainToks c k ++ plainToksL c ks
+end
+
+mutual
+def prettyToks (c : RCfg) (u : PStr) (l : Int) (lit : Bool) : RNode → List Tok
+  | .str p s b =>
+    if lit then strToks p s b
+    else if strip (outputReady p s b) = [] then []
+    else if p = [] then [.data (rep u l ++ strip (outputReady p s b) ++ [10])]
+    else [.data (rep u l), .markup (strip (outputReady p s b)), .data [10]]
+  | .tag i ks =>
+    let e := ks.isEmpty && i.canBeEmpty
+    if e then (if lit then tagTok (formatTag c i e true) else lineToks u l (formatTag c i e true))
+    else if lit then tagTok (formatTag c i e true) ++ prettyToksL c u (l + 1) true ks ++ tagTok (formatTag c i e false)
+    else if !shouldPrettyPrint i.preserveWs i.name then
+      openToks u l (formatTag c i e true) ++ prettyToksL c u (l + 1) true ks ++ closeToks (formatTag c i e false)
+    else lineToks u l (formatTag c i e true) ++ prettyToksL c u (l + 1) false ks ++ lineToks u l (formatTag c i e false)
+def prettyToksL (c : RCfg) (u : PStr) (l : Int) (lit : Bool) : List RNode → List Tok
+  | [] => []
+  | k :: ks => prettyToks c u l lit k ++ prettyToksL c u l lit ks
+end
 
 end BS.Pretty
